@@ -697,6 +697,8 @@ def gen_pos(rng):
 
 
 def gen_radius(rng):
+    if rng.chance(0.25):       # round sizes make vertices fall exactly on the axes (exact zero cross products)
+        return rng.choice([1.0, 2.0, 0.5, 10.0, 3.0])
     return round(10.0 ** rng.uniform(-2, 2), 6)
 
 
@@ -781,6 +783,19 @@ def gen_angles(rng, spec, n):
 
 def gen_draws(rng, n):
     return [rng.uniform() for _ in range(2 * n)]
+
+
+def load_corpus():
+    """corpus/c19/*.json: minimised past failures and boundary cases, run first on every seed"""
+    import glob
+    import json
+    import os
+    out = []
+    for fn in sorted(glob.glob(os.path.join(core.VERIF, 'corpus', 'c19', '*.json'))):
+        with open(fn) as f:
+            d = json.load(f)
+        out.append((os.path.basename(fn), d['call'], d['case']))
+    return out
 
 
 # ------------------------------------------------------------------ correspondence with the Lean model
@@ -1060,8 +1075,36 @@ def corr_pp(ctx, drv, ncases):
             ctx.branch('pp:rectangle')
 
 
+def corr_corpus(ctx, drv):
+    """the border-point corpus cases (vertex directions with exactly vanishing cross products) against the model"""
+    for name, call, case in load_corpus():
+        if call != 'get_border_point':
+            continue
+        spec = case['spec']
+        sh = make_shape(spec)
+        sl = spec_line(spec)
+        tol = TOL * spec_scale(spec)
+        out = drv.ask(['border %s %s %s' % (sl, core.f2s(a), core.f2s(r)) for a, r in case['queries']])
+        for (a, r), m in zip(case['queries'], out):
+            try:
+                p = complex(sh.get_border_point(a, r))
+                impl = None
+            except ValueError:
+                impl = 'error:ValueError'
+            if impl is None and not m.startswith('error'):
+                mp = fpts(m)[0]
+                ok = abs(p - mp) <= tol + 1e-9 * shape_size(spec)
+                ctx.corr('get_border_point.corpus', {'spec': spec, 'angle': a, 'ratio': r}, 'match' if ok else repr(p),
+                         'match' if ok else repr(mp), key=('cborder', name, a, r))
+            else:
+                ctx.corr('get_border_point.corpus', {'spec': spec, 'angle': a, 'ratio': r},
+                         impl if impl is not None else repr(p), m, key=('cborder', name, a, r))
+            ctx.branch('border:corpus')
+
+
 def correspondence(ctx, nshapes, nq, nusers, cluster_cases, ndist, npp):
     drv = core.Driver(DRIVER)
+    corr_corpus(ctx, drv)
     corr_shapes(ctx, drv, ['hex', 'hexshape', 'sec3', 'rect', 'rect', 'square', 'circle', 'wrap', 'sector'], nshapes, nq)
     corr_users(ctx, drv, nusers, 40)
     corr_clusters(ctx, drv, cluster_cases)
@@ -1070,19 +1113,6 @@ def correspondence(ctx, nshapes, nq, nusers, cluster_cases, ndist, npp):
 
 
 # ------------------------------------------------------------------ oracle runs
-def load_corpus():
-    """corpus/c19/*.json: minimised past failures and boundary cases, run first on every seed"""
-    import glob
-    import json
-    import os
-    out = []
-    for fn in sorted(glob.glob(os.path.join(core.VERIF, 'corpus', 'c19', '*.json'))):
-        with open(fn) as f:
-            d = json.load(f)
-        out.append((os.path.basename(fn), d['call'], d['case']))
-    return out
-
-
 def oracles(ctx, nshapes, nq, nusers, cluster_cases, ndist, npp):
     for name, call, case in load_corpus():
         run_oracle(ctx, call, case, key=('corpus', name))
